@@ -55,6 +55,8 @@ Record c08_case := mkCase {
   c_reraise : bool;                 (* reraise_visit (default True) *)
   c_out : res obj;                  (* remap(root, visit): output graph / exception type *)
   c_calls : list vcall;             (* calls received by visit, in order *)
+  c_call_ids : list (option nat);   (* per call: WHICH object of the output graph visit was handed (its number in
+                                       c_out), None for leaves / objects that did not end up in the output *)
   c_in_after : obj;                 (* the input graph re-read after remap *)
   c_query : vpred;
   c_qraise : option vpred;          (* where this holds, the query raises instead of answering *)
@@ -70,7 +72,7 @@ Definition vcall_eqb (a b : vcall) : bool :=
   let '(p, k, s) := a in let '(p', k', s') := b in path_eqb p p' && key_eqb k k' && sview_eqb s s'.
 
 Definition visits_of (lg : list event) : list vcall :=
-  flat_map (fun e => match e with EVisit p k v => [(p, k, shallow v)] | _ => [] end) lg.
+  flat_map (fun e => match e with EVisit p k _ v => [(p, k, shallow v)] | _ => [] end) lg.
 
 Definition enters_of (lg : list event) : list enter_obs :=
   flat_map (fun e => match e with EEnter p k r s => [(p, k, r, s)] | _ => [] end) lg.
@@ -91,6 +93,23 @@ Definition hooks_match (o : outcome) (h : option (list enter_obs * list exit_obs
   | Some (en, ex) => list_eqb enter_eqb (enters_of (outcome_log o)) en
                      && list_eqb exit_eqb (exits_of (outcome_log o)) ex
   end.
+
+(* identity of the values handed to visit, as canonical numbers of the output graph *)
+Definition visit_refs (lg : list event) : list oref :=
+  flat_map (fun e => match e with EVisit _ _ r _ => [r] | _ => [] end) lg.
+Definition outcome_call_ids (o : outcome) : list (option nat) :=
+  match o with
+  | Done v m lg => map (fun r => match r with RObj id => canon_number m v id | _ => None end) (visit_refs lg)
+  | Fail _ lg => map (fun _ => None) (visit_refs lg)
+  | OutOfFuel => []
+  end.
+Definition observed_call_ids (out : res obj) (ids : list (option nat)) : list (option nat) :=
+  match out with
+  | Ok o => map (fun x => match x with Some h => canon_number [] o h | None => None end) ids
+  | Raise _ => map (fun _ => None) ids
+  end.
+Definition ids_match (o : outcome) (out : res obj) (ids : list (option nat)) : bool :=
+  list_eqb (option_eqb Nat.eqb) (outcome_call_ids o) (observed_call_ids out ids).
 
 Definition canon_res (r : res obj) : res obj :=
   match r with
@@ -153,7 +172,7 @@ Definition ok_probes (c : c08_case) : bool :=
 
 Definition agree (c : c08_case) : bool :=
   let m := model_remap c in
-  spec_valid c && probes_agree c && hooks_match m (c_hooks c) &&
+  spec_valid c && probes_agree c && hooks_match m (c_hooks c) && ids_match m (c_out c) (c_call_ids c) &&
   res_eqb obj_eqb (outcome_result m) (canon_res (c_out c))
   && list_eqb vcall_eqb (outcome_calls m) (c_calls c)
   && res_eqb (list_eqb rentry_eqb) (model_research c) (c_research c).
@@ -182,6 +201,7 @@ Definition ok_rebuild (c : c08_case) : bool :=
       res_eqb obj_eqb (outcome_result s) (canon_res (c_out c))
       && list_eqb vcall_eqb (outcome_calls s) (c_calls c)
       && hooks_match s (c_hooks c)        (* enter / exit called once per object, with the right path, key, items *)
+      && ids_match s (c_out c) (c_call_ids c)   (* visit is handed the very object that ends up in the result *)
   end.
 
 Definition ok_untouched (c : c08_case) : bool :=
